@@ -42,6 +42,33 @@ Theorem C19_time_roundtrip : forall SPS, 0 < SPS -> forall slot g r, slot < two6
   time_at_slot SPS slot g = Ok r -> time_to_slot SPS r g = slot.
 Proof. exact time_to_slot_inverse. Qed.
 Print Assumptions C19_time_roundtrip.
+(* TimeToSlot = the spec's compute_slot_at_time: 0 before genesis, else THE slot whose interval contains t *)
+Theorem C19_time_to_slot_floor : forall SPS t g, 0 < SPS ->
+  (t < g -> time_to_slot SPS t g = 0) /\
+  (g <= t -> time_to_slot SPS t g * SPS + g <= t /\ t < (time_to_slot SPS t g + 1) * SPS + g).
+Proof. exact time_to_slot_floor. Qed.
+Print Assumptions C19_time_to_slot_floor.
+Theorem C19_time_to_slot_unique : forall SPS t g s, 0 < SPS -> g <= t ->
+  s * SPS + g <= t -> t < (s + 1) * SPS + g -> time_to_slot SPS t g = s.
+Proof. exact time_to_slot_unique. Qed.
+Print Assumptions C19_time_to_slot_unique.
+Theorem C19_time_to_slot_bound : forall SPS t g, 0 < SPS -> t < two64 -> time_to_slot SPS t g < two64.
+Proof. exact time_to_slot_bound. Qed.
+Print Assumptions C19_time_to_slot_bound.
+(* SlotToEpoch = floor(s / SPE); EpochStartSlot, when it answers, is the LEAST slot of that epoch and fits 64 bits *)
+Theorem C19_slot_to_epoch_floor : forall SPE s, 0 < SPE ->
+  slot_to_epoch SPE s * SPE <= s /\ s < (slot_to_epoch SPE s + 1) * SPE.
+Proof. exact slot_to_epoch_floor. Qed.
+Print Assumptions C19_slot_to_epoch_floor.
+Theorem C19_epoch_start_slot_inverse : forall SPE e s, 0 < SPE -> e < two64 -> SPE < two64 ->
+  epoch_start_slot SPE e = Ok s ->
+  slot_to_epoch SPE s = e /\ (forall s', slot_to_epoch SPE s' = e -> s <= s') /\ s < two64.
+Proof. exact epoch_start_slot_inverse. Qed.
+Print Assumptions C19_epoch_start_slot_inverse.
+(* Slot.Previous / Epoch.Previous saturate at genesis instead of wrapping *)
+Theorem C19_slot_prev : forall s, slot_prev s = N.pred s /\ slot_prev s <= s /\ (0 < s -> slot_prev s + 1 = s).
+Proof. exact slot_prev_spec. Qed.
+Print Assumptions C19_slot_prev.
 Theorem C19_activation_exit_epoch : forall MSL e, e + 1 + MSL < two64 ->
   activation_exit_epoch MSL e = e + 1 + MSL.
 Proof. exact activation_exit_epoch_repr. Qed.
